@@ -127,6 +127,13 @@ Proof.
   intros c s s' u H. unfold sreset_internal, modify in H. inversion H; subst. right. reflexivity.
 Qed.
 
+Lemma notice_of_completion_s_step : forall s s' u, notice_of_completion_s s = (s', Ok u) -> step_7_or_0 s'.
+Proof.
+  intros s s' u H. unfold notice_of_completion_s in H.
+  apply bind_inv in H as (s1 & l & _ & H). apply bind_inv in H as (s2 & ? & _ & H).
+  eapply sreset_step. exact H.
+Qed.
+
 Lemma handle_eof_sent_step : forall s s' u, handle_eof_sent true s = (s', Ok u) -> step_7_or_0 s'.
 Proof.
   intros s s' u H. unfold handle_eof_sent in H.
@@ -137,7 +144,11 @@ Proof.
     apply bind_inv in H as (s4 & x & Hs & H).
     unfold sset_step, modify in Hs. unfold setq, modify in H. inversion H; inversion Hs; subst.
     left. reflexivity.
-  - eapply sreset_step. exact H.
+  - (* unacknowledged mode (F21 repair): the Finished indication, then the reset *)
+    apply bind_inv in H as (s2 & ce & _ & H).
+    destruct ce as [c|]; [|discriminate].
+    apply bind_inv in H as (s3 & ? & _ & H).
+    eapply notice_of_completion_s_step. exact H.
 Qed.
 
 Lemma notice_of_cancellation_s_step : forall cond s s' go,
@@ -314,23 +325,186 @@ Proof.
   eexists. split; [reflexivity|]. cbn. repeat split; reflexivity.
 Qed.
 
+(* ---- the NAK procedure at and around its limit (F22 repair) *)
+(* the re-issue branch of deferred_lost_segment_handling (timer expired, procedure not stopped): the NAK sequence is
+   queued again, the counter is incremented and the timer restarts; same text as in Dest.v *)
+Definition nak_reissue (r : rcfg) (eos : Z) : D unit :=
+  (h <- conf ;;
+   match max_seg_reqs (r_max_packet r) h with
+   | None => raise E_VALUE
+   | Some maxn =>
+     let hh := set_dir TOWARDS_SENDER h in
+     tr <- gp p_tracker ;; mdm <- gp p_md_missing ;;
+     let '(pre, acc0) :=
+       if mdm then (if 1 =? maxn then ([PNak hh 0 eos [(0, 0)]], []) else ([], [(0, 0)]))
+       else ([], []) in
+     let '(ps, rest) := nak_split hh eos maxn acc0 tr in
+     let all := pre ++ ps ++ (match rest with [] => [] | _ => [PNak hh 0 eos rest] end) in
+     fold_left (fun m p => m ;;; add_packet p) all (ret tt) ;;;
+     (n <- now ;; t <- gp p_proc_timer ;;
+      setp (fun p => p <| p_nak_counter ::= (fun c => c + 1) |>
+                       <| p_proc_timer := (match t with Some (_, tmo) => Some (n, tmo) | None => None end) |>))
+   end)%monad.
+
+(* the PDUs of one NAK sequence *)
+Definition nak_seq (h : hdr) (eos maxn : Z) (mdm : bool) (tr : tracker) : list pdu :=
+  let '(pre, acc0) := if mdm then (if 1 =? maxn then ([PNak h 0 eos [(0, 0)]], []) else ([], [(0, 0)])) else ([], []) in
+  let '(ps, rest) := nak_split h eos maxn acc0 tr in
+  pre ++ ps ++ (match rest with [] => [] | _ => [PNak h 0 eos rest] end).
+
+Lemma fold_add_packets : forall l (m : D unit) s s1, m s = (s1, Ok tt) ->
+  fold_left (fun m p => m ;;; add_packet p)%monad l m s =
+    (s1 <| d_queue := d_queue s1 ++ l |> <| d_ready := d_ready s1 + zlen l |>, Ok tt).
+Proof.
+  induction l as [|p l IH]; intros m s s1 H; cbn [fold_left].
+  - rewrite H. destruct s1. cbn. rewrite app_nil_r. change (zlen (@nil pdu)) with 0. rewrite Z.add_0_r. reflexivity.
+  - rewrite (IH _ s (s1 <| d_queue ::= (fun q => q ++ [p]) |> <| d_ready ::= (fun n => n + 1) |>)).
+    + replace (zlen (p :: l)) with (1 + zlen l) by (unfold zlen; cbn [length]; lia).
+      destruct s1. unfold set. cbn. rewrite <- app_assoc, Z.add_assoc. reflexivity.
+    + unfold bind. rewrite H. reflexivity.
+Qed.
+
+(* what a re-issue does, exactly: the NAK sequence appended to the queue, counter + 1, timer restarted now, nothing else;
+   without room for one segment request in a NAK PDU: ValueError, state untouched *)
+Lemma nak_reissue_exact : forall s r eos t maxn,
+  p_proc_timer (d_p s) = Some t -> max_seg_reqs (r_max_packet r) (p_conf (d_p s)) = Some maxn ->
+  let naks := nak_seq (set_dir TOWARDS_SENDER (p_conf (d_p s))) eos maxn (p_md_missing (d_p s)) (p_tracker (d_p s)) in
+  nak_reissue r eos s =
+    (s <| d_queue := d_queue s ++ naks |> <| d_ready := d_ready s + zlen naks |>
+       <| d_p ::= (fun p => p <| p_nak_counter := p_nak_counter (d_p s) + 1 |>
+                              <| p_proc_timer := Some (now_d s, snd t) |>) |>, Ok tt).
+Proof.
+  intros s r eos t maxn Ht Hm naks. subst naks.
+  unfold nak_reissue, conf, gp, gets, now. unfold bind at 1. rewrite Hm. cbv zeta.
+  unfold bind at 1. unfold bind at 1. unfold nak_seq.
+  destruct (if p_md_missing (d_p s) then _ else _) as [pre acc0].
+  destruct (nak_split _ _ _ acc0 _) as [ps rest].
+  unfold bind at 1.
+  rewrite (fold_add_packets _ (ret tt) s s eq_refl).
+  match goal with |- context[zlen ?x] => generalize x end. intro al.
+  destruct t as [t0 tmo]. unfold now_d.
+  destruct s as [cfg st step stid ready q p env]. destruct p. cbn in Ht. subst.
+  reflexivity.
+Qed.
+
+Lemma nak_reissue_no_room : forall s r eos,
+  max_seg_reqs (r_max_packet r) (p_conf (d_p s)) = None -> nak_reissue r eos s = (s, Err E_VALUE).
+Proof.
+  intros s r eos Hm. unfold nak_reissue, conf, gp, gets. unfold bind at 1. rewrite Hm. reflexivity.
+Qed.
+
+(* a re-issue logs nothing *)
+Lemma nak_reissue_log : forall s r eos, log_d (fst (nak_reissue r eos s)) = log_d s.
+Proof.
+  intros s r eos.
+  destruct (max_seg_reqs (r_max_packet r) (p_conf (d_p s))) as [maxn|] eqn:Hm; [|rewrite nak_reissue_no_room by exact Hm; reflexivity].
+  unfold nak_reissue, conf, gp, gets, now. unfold bind at 1. rewrite Hm. cbv zeta.
+  unfold bind at 1. unfold bind at 1.
+  destruct (if p_md_missing (d_p s) then _ else _) as [pre acc0].
+  destruct (nak_split _ _ _ acc0 _) as [ps rest].
+  unfold bind at 1.
+  rewrite (fold_add_packets _ (ret tt) s s eq_refl).
+  reflexivity.
+Qed.
+
+Lemma nak_missing_cond : forall s, (p_tracker (d_p s) <> [] \/ p_md_missing (d_p s) = true) ->
+  (zlen (p_tracker (d_p s)) =? 0) && negb (p_md_missing (d_p s)) = false.
+Proof.
+  intros s [Hn|Hm]; [|rewrite Hm; apply andb_false_r].
+  destruct (p_tracker (d_p s)); [contradiction|]. reflexivity.
+Qed.
+
+(* expiry below (or beyond) the limit: the call is exactly a re-issue *)
+Lemma dst_nak_reissue : forall s r eos t,
+  p_deferred (d_p s) = true -> p_rcfg (d_p s) = Some r -> p_file_size_eof (d_p s) = Some eos ->
+  (p_tracker (d_p s) <> [] \/ p_md_missing (d_p s) = true) ->
+  p_proc_timer (d_p s) = Some t -> timed_out (now_d s) t = true -> p_nak_counter (d_p s) + 1 <> r_nak_limit r ->
+  deferred_lost_segment_handling s = nak_reissue r eos s.
+Proof.
+  intros s r eos t Hd Hr He Hmiss Ht Hto Hlim.
+  pose proof (nak_missing_cond s Hmiss) as Hz. unfold now_d in Hto.
+  assert (p_nak_counter (d_p s) + 1 =? r_nak_limit r = false) as Heq by (apply Z.eqb_neq; exact Hlim).
+  unfold deferred_lost_segment_handling, rcfg_or_assert, now, gp, gets, bind, ret.
+  rewrite Hd. change (negb true) with false. cbv beta iota. rewrite Hr. cbv beta iota. rewrite He. cbv beta iota.
+  rewrite Hz. cbv beta iota. rewrite Ht. cbv beta iota. rewrite Hto. change (negb true) with false. cbv beta iota.
+  rewrite Heq. change (negb false && false) with false. cbv beta iota.
+  reflexivity.
+Qed.
+
+(* expiry N, handler of NAK Limit Reached not IGNORE: the fault is declared and the call ends there (its effect is C14's) *)
 Lemma dst_nak_limit : forall s r eos t,
   p_deferred (d_p s) = true -> p_rcfg (d_p s) = Some r -> p_file_size_eof (d_p s) = Some eos ->
   (p_tracker (d_p s) <> [] \/ p_md_missing (d_p s) = true) ->
   p_proc_timer (d_p s) = Some t -> timed_out (now_d s) t = true -> p_nak_counter (d_p s) + 1 = r_nak_limit r ->
+  get_fault_handler (l_faults (d_cfg s)) C_NAK_LIMIT <> Some FH_IGNORE ->
   deferred_lost_segment_handling s =
     (fst (declare_fault C_NAK_LIMIT s), match snd (declare_fault C_NAK_LIMIT s) with Ok _ => Ok tt | Err e => Err e end).
 Proof.
-  intros s r eos t Hd Hr He Hmiss Ht Hto Hlim. unfold now_d in Hto.
-  assert ((zlen (p_tracker (d_p s)) =? 0) && negb (p_md_missing (d_p s)) = false) as Hz.
-  { destruct Hmiss as [Hn|Hm]; [|rewrite Hm; apply andb_false_r].
-    destruct (p_tracker (d_p s)); [contradiction|]. reflexivity. }
+  intros s r eos t Hd Hr He Hmiss Ht Hto Hlim Hni.
+  pose proof (nak_missing_cond s Hmiss) as Hz. unfold now_d in Hto.
   assert (p_nak_counter (d_p s) + 1 =? r_nak_limit r = true) as Heq by (apply Z.eqb_eq; exact Hlim).
+  assert (forall s' x, declare_fault C_NAK_LIMIT s = (s', Ok x) -> negb (x =? FH_IGNORE) = true) as Hx.
+  { intros s' x Hdf. unfold declare_fault, gp, gets, bind, ret, raise in Hdf.
+    destruct (p_tid (d_p s)) as [[a b]|]; [|discriminate].
+    destruct (get_fault_handler (l_faults (d_cfg s)) C_NAK_LIMIT) as [fh|]; [|discriminate].
+    assert (fh <> FH_IGNORE) as Hne by (intro; subst fh; apply Hni; reflexivity).
+    destruct (fh =? FH_CANCEL); cbn in Hdf;
+      (destruct (fh =? FH_ABANDON); cbn in Hdf; [discriminate|]);
+      inversion Hdf; subst x; apply negb_true_iff, Z.eqb_neq; exact Hne. }
   unfold deferred_lost_segment_handling, rcfg_or_assert, now, gp, gets, bind, ret.
   rewrite Hd. change (negb true) with false. cbv beta iota. rewrite Hr. cbv beta iota. rewrite He. cbv beta iota.
   rewrite Hz. cbv beta iota. rewrite Ht. cbv beta iota. rewrite Hto. change (negb true) with false. cbv beta iota.
   rewrite Heq. change (negb false && true) with true. cbv beta iota.
-  destruct (declare_fault C_NAK_LIMIT s) as [s' [x|e]]; reflexivity.
+  destruct (declare_fault C_NAK_LIMIT s) as [s' [x|e]] eqn:Hdf; [|reflexivity].
+  rewrite (Hx s' x eq_refl). reflexivity.
+Qed.
+
+(* expiry N, handler IGNORE (F22 repair): exactly one IGNORE callback, then the call is exactly a re-issue: the NAK
+   sequence again, counter N, timer restarted (so the limit test fails at every later expiry) *)
+Lemma dst_nak_limit_ignored_continues : forall s r eos t a b,
+  p_deferred (d_p s) = true -> p_rcfg (d_p s) = Some r -> p_file_size_eof (d_p s) = Some eos ->
+  (p_tracker (d_p s) <> [] \/ p_md_missing (d_p s) = true) ->
+  p_proc_timer (d_p s) = Some t -> timed_out (now_d s) t = true -> p_nak_counter (d_p s) + 1 = r_nak_limit r ->
+  get_fault_handler (l_faults (d_cfg s)) C_NAK_LIMIT = Some FH_IGNORE -> p_tid (d_p s) = Some (a, b) ->
+  let s1 := s <| d_env ::= (fun en => en <| e_log ::= cons (EvFault FH_IGNORE a b C_NAK_LIMIT (p_progress (d_p s))) |>) |> in
+  deferred_lost_segment_handling s = nak_reissue r eos s1 /\
+  (forall maxn, max_seg_reqs (r_max_packet r) (p_conf (d_p s)) = Some maxn ->
+     let naks := nak_seq (set_dir TOWARDS_SENDER (p_conf (d_p s))) eos maxn (p_md_missing (d_p s)) (p_tracker (d_p s)) in
+     deferred_lost_segment_handling s =
+       (s1 <| d_queue := d_queue s ++ naks |> <| d_ready := d_ready s + zlen naks |>
+           <| d_p ::= (fun p => p <| p_nak_counter := p_nak_counter (d_p s) + 1 |>
+                                  <| p_proc_timer := Some (now_d s, snd t) |>) |>, Ok tt)) /\
+  (max_seg_reqs (r_max_packet r) (p_conf (d_p s)) = None -> deferred_lost_segment_handling s = (s1, Err E_VALUE)).
+Proof.
+  intros s r eos t a b Hd Hr He Hmiss Ht Hto Hlim Hfh Htid s1.
+  assert (deferred_lost_segment_handling s = nak_reissue r eos s1) as Heqn.
+  { pose proof (nak_missing_cond s Hmiss) as Hz. unfold now_d in Hto.
+    assert (p_nak_counter (d_p s) + 1 =? r_nak_limit r = true) as Heq by (apply Z.eqb_eq; exact Hlim).
+    assert (declare_fault C_NAK_LIMIT s = (s1, Ok FH_IGNORE)) as Hdf.
+    { unfold declare_fault, gp, gets, bind. rewrite Htid, Hfh. reflexivity. }
+    unfold deferred_lost_segment_handling, rcfg_or_assert, now, gp, gets, bind, ret.
+    rewrite Hd. change (negb true) with false. cbv beta iota. rewrite Hr. cbv beta iota. rewrite He. cbv beta iota.
+    rewrite Hz. cbv beta iota. rewrite Ht. cbv beta iota. rewrite Hto. change (negb true) with false. cbv beta iota.
+    rewrite Heq. change (negb false && true) with true. cbv beta iota.
+    rewrite Hdf. reflexivity. }
+  split; [exact Heqn|]. split.
+  - intros maxn Hm naks. rewrite Heqn. exact (nak_reissue_exact s1 r eos t maxn Ht Hm).
+  - intros Hm. rewrite Heqn. exact (nak_reissue_no_room s1 r eos Hm).
+Qed.
+
+(* consequently the fault is declared once: at every expiry with the counter at or beyond the limit the call is a
+   re-issue and logs nothing *)
+Lemma dst_nak_limit_not_declared_again : forall s r eos t,
+  p_deferred (d_p s) = true -> p_rcfg (d_p s) = Some r -> p_file_size_eof (d_p s) = Some eos ->
+  (p_tracker (d_p s) <> [] \/ p_md_missing (d_p s) = true) ->
+  p_proc_timer (d_p s) = Some t -> timed_out (now_d s) t = true -> r_nak_limit r <= p_nak_counter (d_p s) ->
+  deferred_lost_segment_handling s = nak_reissue r eos s /\
+  log_d (fst (deferred_lost_segment_handling s)) = log_d s.
+Proof.
+  intros s r eos t Hd Hr He Hmiss Ht Hto Hge.
+  assert (deferred_lost_segment_handling s = nak_reissue r eos s) as Heqn
+    by (eapply dst_nak_reissue; try eassumption; lia).
+  split; [exact Heqn|]. rewrite Heqn. apply nak_reissue_log.
 Qed.
 
 Lemma dst_nak_progress_resets : forall s t,
